@@ -19,6 +19,11 @@ class BlockList:
         self.update_neighbours(block)
 
     def grade_blocks(self) -> None:
+        # grading the same mesh again (a second write(), or after vertices were moved)
+        # repeats the first pass: nothing of the previous one is kept
+        for block in self.blocks:
+            block.reset_gradings()
+
         for block in self.blocks:
             block.grade()
 
